@@ -4,8 +4,10 @@ import (
 	"bytes"
 	"context"
 	"errors"
+	"path/filepath"
 	"regexp"
 	"runtime"
+	"sort"
 	"strconv"
 	"strings"
 
@@ -313,6 +315,24 @@ func evalC09(c *Ctx, cs *Case) {
 			if ri > 1 || hostile {
 				break
 			}
+			if (cs.Idx+ri)%3 == 0 {
+				// names only a programmatic tree can hold: line feeds inside, before and after the text
+				// (one directory or file each for the real run, so one each in the dry run's counts)
+				root = root.Clone()
+				k := 0
+				var rename func(n *model.Node)
+				rename = func(n *model.Node) {
+					for _, kid := range n.Kids {
+						if (k+cs.Idx)%2 == 0 {
+							kid.Name = []string{"notes\n", "a\nb", "\nlead", "l1\nl2\n", "two\n\nfeeds"}[k%5] + strconv.Itoa(k) + filepath.Ext(kid.Name)
+						}
+						k++
+						rename(kid)
+					}
+				}
+				rename(root)
+				c.Count("same_tree_pairs_with_line_feeds_in_names", 1)
+			}
 			g := BuildRoot(root)
 			var o1 Outcome
 			rep := captureColorOutput(func() {
@@ -324,12 +344,23 @@ func evalC09(c *Ctx, cs *Case) {
 			if err != nil {
 				continue
 			}
+			// for half of the pairs the target directory of the real run does not exist yet
+			tgt, rel, extra := j3.Target, j3.Rel, []string(nil)
+			if (cs.Idx+ri+ei)%2 == 1 {
+				tgt, rel = filepath.Join(j3.Target, "not", "there-yet"), j3.Rel+"/not/there-yet"
+				extra = []string{"+d " + j3.Rel + "/not", "+d " + rel}
+				c.Count("same_tree_pairs_with_a_target_that_does_not_exist_yet", 1)
+			}
 			before := j3.Snap()
-			o2 := Guard(func() error { return gtree.MkdirFromRoot(g, fsOpts(j3.Target, exts, hasExt, false, false, false)...) })
+			o2 := Guard(func() error { return gtree.MkdirFromRoot(g, fsOpts(tgt, exts, hasExt, false, false, false)...) })
 			diff := mon.Diff(before, j3.Snap())
 			j3.Remove()
 			mr := model.Merge(model.Forest{root})
-			want := expectedCreated(mr, exts, j3.Rel)
+			want := expectedCreated(mr, exts, rel)
+			if o2.Err == nil {
+				want = append(want, extra...)
+				sort.Strings(want)
+			}
 			cs.Entry = "MkdirFromRoot[dryrun then real, same tree]"
 			c.Eval(gen.HashString(fkey+"\x00sametree"+strconv.Itoa(ei)+root.Name), merged.Size() >= 2)
 			c.SetAdd("entries", cs.Entry)
